@@ -1,7 +1,10 @@
 package labelgen
 
 import (
+	"fmt"
 	"math/rand"
+	"os"
+	"time"
 	"sort"
 	"strings"
 	"sync"
@@ -71,6 +74,8 @@ func SubRand(seed int64, idx int) *rand.Rand {
 	return rand.New(rand.NewSource(seed*1000003 + int64(idx)*7919 + 17))
 }
 
+var timing = os.Getenv("LABELGEN_TIMING") != ""
+
 // Run executes the cases and then emits the collected violations.
 func (r *Runner) Run(cases []func(c *Case)) {
 	if r.Workers < 1 {
@@ -84,7 +89,11 @@ func (r *Runner) Run(cases []func(c *Case)) {
 		go func(w int) {
 			defer wg.Done()
 			for i := range jobs {
+				t0 := time.Now()
 				cases[i](&Case{CI: i, R: SubRand(r.P.Seed, i), worker: w, run: r})
+				if d := time.Since(t0); timing && d > 2*time.Second { // diagnostics only, never part of a verdict
+					fmt.Fprintf(os.Stderr, "slow case %d: %v: %s\n", i, d, r.inflight[w])
+				}
 				r.mu.Lock()
 				r.inflight[w] = ""
 				r.mu.Unlock()
